@@ -148,7 +148,10 @@ type RowCache struct {
 	cache      map[string]model.Model
 	indexSpecs []indexSpec
 	indexes    columnToValue
-	mutex      sync.RWMutex
+	// keepDuplicates makes schema indexes track every row holding a value
+	// instead of just the last one written
+	keepDuplicates bool
+	mutex          sync.RWMutex
 }
 
 // rowByUUID returns one model from the cache by UUID. Caller must hold the row
@@ -294,7 +297,7 @@ func (r *RowCache) Create(uuid string, m model.Model, checkIndexes bool) error {
 	for _, indexSpec := range r.indexSpecs {
 		index := indexSpec.index
 		for k, v := range addIndexes[index] {
-			if indexSpec.isSchemaIndex() {
+			if indexSpec.isSchemaIndex() && !r.keepDuplicates {
 				r.indexes[index][k] = v
 			} else {
 				r.indexes[index][k] = addUUIDSet(r.indexes[index][k], v)
@@ -370,7 +373,7 @@ func (r *RowCache) Update(uuid string, m model.Model, checkIndexes bool) (model.
 	for _, indexSpec := range r.indexSpecs {
 		index := indexSpec.index
 		for k, v := range addIndexes[index] {
-			if indexSpec.isSchemaIndex() {
+			if indexSpec.isSchemaIndex() && !r.keepDuplicates {
 				r.indexes[index][k] = v
 			} else {
 				r.indexes[index][k] = addUUIDSet(r.indexes[index][k], v)
@@ -1039,6 +1042,20 @@ func (t *TableCache) Purge(dbModel model.DatabaseModel) {
 	tableTypes := t.dbModel.Types()
 	for name := range t.dbModel.Schema.Tables {
 		t.cache[name] = newRowCache(name, t.dbModel, tableTypes[name])
+	}
+}
+
+// KeepDuplicates makes the schema indexes of the cache track every row that
+// holds a value, like client indexes do, instead of only the row that wrote
+// it last. A cache used to stage a transaction may hold duplicates that a
+// later operation resolves; it must not lose sight of any of the rows.
+func (t *TableCache) KeepDuplicates() {
+	t.mutex.Lock()
+	defer t.mutex.Unlock()
+	for _, rowCache := range t.cache {
+		rowCache.mutex.Lock()
+		rowCache.keepDuplicates = true
+		rowCache.mutex.Unlock()
 	}
 }
 
